@@ -83,6 +83,9 @@ impl Case10 {
                 return e("discard", format!("step {} is not admissible", i));
             }
             if let Err(p) = ex.step(s) {
+                if is_discard(&p) {
+                    return e("discard", p);
+                }
                 let kind = if matches!(s, Step::Backward { .. }) { "panic-in-backward" } else { "unexpected-panic" };
                 return e(kind, format!("step {} ({}) panicked: {}\nhistory: {}", i, step_name(s), p, hist_sample(&self.hist)));
             }
@@ -97,6 +100,7 @@ impl Case10 {
                     run.passes += 1;
                     let single = match alone(&self.hist, i) {
                         Ok(g) => g,
+                        Err(p) if is_discard(&p) => return e("discard", p),
                         Err(p) => return e("panic-alone", format!("the pass of step {} panicked when run alone on a fresh instance: {}", i, p)),
                     };
                     for (n, g) in single {
